@@ -212,7 +212,7 @@ func c15Cfg() bs.BloomSearchEngineConfig {
 // runHistory executes a scripted history on a fresh directory and returns its log.
 // script items: "ingest:<batch>", "flush", "merge", "fault:<n>" (next mutating fs call n
 // of the following step fails).
-func c15RunHistory(name string, script []string, faultAt int) (*c15history, error) {
+func c15RunHistory(name string, script []string, faultAt int, cancelAt ...int) (*c15history, error) {
 	dir, err := os.MkdirTemp(shmDir(), "c15h-")
 	if err != nil {
 		return nil, err
@@ -242,6 +242,13 @@ func c15RunHistory(name string, script []string, faultAt int) (*c15history, erro
 	var pending []pend
 	if faultAt > 0 {
 		rec.SetFaults(map[int]bool{faultAt: true})
+	}
+	// the context given to Merge (an operator's deadline, a signal handler's context) ends just
+	// before the n-th mutating filesystem call
+	mctx, mcancel := context.WithCancel(ctx)
+	defer mcancel()
+	if len(cancelAt) > 0 && cancelAt[0] > 0 {
+		rec.CancelAt(cancelAt[0], mcancel)
 	}
 	for _, step := range script {
 		switch {
@@ -274,7 +281,7 @@ func c15RunHistory(name string, script []string, faultAt int) (*c15history, erro
 			}
 			pending = nil
 		case step == "merge":
-			_, err := eng.Merge(ctx)
+			_, err := eng.Merge(mctx)
 			rec.Mark(fmt.Sprintf("merge returned err=%v", err != nil))
 		}
 	}
@@ -539,9 +546,38 @@ func init() {
 					}})
 				}
 			}
+			// the context given to Merge ends just before every mutating filesystem call in turn
+			for _, base := range []string{"flush-merge-flush", "three-files-merge"} {
+				base := base
+				if tier == "quick" && base != "flush-merge-flush" {
+					continue
+				}
+				h0, err := c15RunHistory(base, scripts[base], 0)
+				if err != nil {
+					continue
+				}
+				muts := 0
+				for _, o := range h0.log {
+					switch o.Kind {
+					case "create", "write", "fsync", "fsyncdir", "rename", "remove":
+						muts++
+					}
+				}
+				for k := 1; k <= muts; k++ {
+					k := k
+					cs = append(cs, Case{ID: fmt.Sprintf("history/%s/merge-ctx-ends@%d", base, k), Run: func() CaseResult {
+						name := fmt.Sprintf("%s with Merge's context cancelled before filesystem call %d", base, k)
+						h, err := c15RunHistory(name, append(append([]string{}, scripts[base]...), "ingest:BX", "flush"), 0, k)
+						if err != nil {
+							return CaseResult{Findings: []Finding{fnd("setup", "history %s: %v", name, err)}}
+						}
+						return c15Explore(h, false)
+					}})
+				}
+			}
 			return cs
 		},
-		Rule:        "histories over FileSystemDataStore as both stores (two flushes; flush/merge/flush; three-file merge; merge of a merge output; each of the first two re-run with one filesystem call failing at every position, i.e. every abort path) are logged at the os boundary; every prefix of the log (plus torn writes at 4 prefixes per write) yields a process-crash state and, under the stated durability model, power-loss states for every prefix (quick) or subset (thorough) of the not-yet-fsynced directory operations x {unsynced data absent, present}; every distinct state is materialised and recovered by a fresh engine; oracle: all listed files read completely, every row acknowledged before the crash point is returned, nothing foreign, nothing more often than ingested",
+		Rule:        "histories over FileSystemDataStore as both stores (two flushes; flush/merge/flush; three-file merge; merge of a merge output; each of the first two re-run with one filesystem call failing at every position, i.e. every abort path; two re-run with the context given to Merge cancelled just before every filesystem call in turn) are logged at the os boundary; every prefix of the log (plus torn writes at 4 prefixes per write) yields a process-crash state and, under the stated durability model, power-loss states for every prefix (quick) or subset (thorough) of the not-yet-fsynced directory operations x {unsynced data absent, present}; every distinct state is materialised and recovered by a fresh engine; oracle: all listed files read completely, every row acknowledged before the crash point is returned, nothing foreign, nothing more often than ingested",
 		Assumptions: []string{"durability model: file data durable up to the last fsync of that file; directory entries durable once the directory was fsynced after the operation; unsynced directory operations survive as a prefix (quick) or any subset (thorough) of their issue order; unsynced data is either absent or fully present"},
 	}
 }
